@@ -533,4 +533,163 @@ def involves (p : Nat) : NOp → Bool
     short only when the run itself has been cancelled. -/
 def runCancelled (s : Net) : Bool := s.cancelled.contains 0
 
+/-! ### "Closed and drained" is ONE test
+
+A receive — explicit (`<-c`, `c.receive()`) or the first half of a `range` step
+(`Chan.Next`) — reports "closed" (nil / end of iteration) on the strength of ONE atomic look
+at the channel: *the queue is empty and the channel is closed, at the same moment*.  In the
+code this is the single `case value, ok := <-c.value` of the `select` (Go's channel lock makes
+"empty" and "closed" one reading).  `step` has exactly this shape; `closedAndDrained` names
+the test so that the theorems can speak about it. -/
+
+/-- the test behind every "closed" report: queue empty ∧ closed, read together -/
+def closedAndDrained (c : Chan) : Bool := c.buf.isEmpty && c.closed
+
+/-- receive-side observations that say "closed": nil from a receive, the end from `Next` -/
+def Obs.reportsClosed : Obs → Bool
+  | .nil => true
+  | .nextEnd => true
+  | _ => false
+
+/-- the explicit presentation of a receive as "atomic test first" (proved equal to
+    `step c (.recv t)` in `Props.recv_is_atomic_test`) -/
+def recvAtomic (c : Chan) (t : Nat) : Option (Chan × Obs) :=
+  if isPend c t then none
+  else if closedAndDrained c then some (c, .nil)
+  else match c.buf with
+    | v :: rest => some (recvOf c t v rest, .val v)
+    | [] => none
+
+/-- the same for `Chan.Next` (`Props.next_is_atomic_test`) -/
+def nextAtomic (c : Chan) (t : Nat) : Option (Chan × Obs) :=
+  if isPend c t then none
+  else if closedAndDrained c then some (c, .nextEnd)
+  else match c.buf with
+    | v :: rest => some (nextOf c t v rest, .nextOk v)
+    | [] => none
+
+/-- **Contrast only — NOT the code.**  A receive that reads "empty" and "closed" at two
+    different moments: `poll t` is a non-blocking look at the queue — it dequeues when there
+    is a value and otherwise only remembers that `t` found the queue empty; `flag t` is the
+    later reading of a separate closed flag by such a thread: when the flag is set the thread
+    reports "closed" WITHOUT looking at the queue again, otherwise it goes on to the blocking
+    receive (an ordinary `base` step).  Any other thread may act between the two.  It exists
+    only so that `Props.two_step_variant_loses_a_value` can show why the test must be one. -/
+structure Chan2 where
+  c : Chan
+  sawEmpty : List Nat := []     -- threads between their poll and their reading of the flag
+  deriving Repr, DecidableEq
+
+inductive Op2 where
+  | base (o : Op)                  -- a step of the channel machine as it is
+  | poll (t : Nat) (iter : Bool)   -- first moment: is a value queued?
+  | flag (t : Nat) (iter : Bool)   -- second moment: is the closed flag set?
+  deriving Repr, DecidableEq
+
+def step2 (s : Chan2) : Op2 → Option (Chan2 × Option Obs)
+  | .base o =>
+    if (actors o).any (fun t => s.sawEmpty.contains t) then none
+    else match step s.c o with
+      | some (c', ob) => some ({ s with c := c' }, some ob)
+      | none => none
+  | .poll t iter =>
+    if s.sawEmpty.contains t || isPend s.c t then none
+    else match s.c.buf with
+      | v :: rest =>
+        if iter then some ({ s with c := nextOf s.c t v rest }, some (.nextOk v))
+        else some ({ s with c := recvOf s.c t v rest }, some (.val v))
+      | [] => some ({ s with sawEmpty := s.sawEmpty ++ [t] }, none)
+  | .flag t iter =>
+    if s.sawEmpty.contains t then
+      if s.c.closed then
+        some ({ s with sawEmpty := s.sawEmpty.erase t }, some (if iter then .nextEnd else .nil))
+      else some ({ s with sawEmpty := s.sawEmpty.erase t }, none)
+    else none
+
+/-- run the contrast machine; the observations are kept (a `none` entry = an internal step) -/
+def run2 (s : Chan2) : List Op2 → Option (Chan2 × List (Option Obs))
+  | [] => some (s, [])
+  | o :: os =>
+    match step2 s o with
+    | some (s', ob) =>
+      match run2 s' os with
+      | some (sf, obs) => some (sf, ob :: obs)
+      | none => none
+    | none => none
+
+/-! ### Which VM a thread's script code runs on
+
+Every script thread executes script code on a VM (`vm.VirtualMachine`: frame array, data
+stack, `ip`/`fp`/`sp`).  The main program runs on VM 0.  `object.Spawn` hands EVERY spawned
+callable — a compiled function (`*object.Function`, through `callFuncAdapter`), a builtin
+(`spawn(print, …)`), a bound method of a container (`items.map.spawn(f)`, `go items.each(f)`),
+`call`, `try`, `sorted` … — to `vm.cloneCallAsync`, which makes a fresh clone and starts the
+thread under `clone.initContext(ctx)`: whatever script code the thread causes to run (its own
+body, or the callbacks a builtin invokes through the context's call function) runs on that
+clone.  A VM is abstracted to one register `ip` = how many script steps have been executed on
+it; `pos[t]` (history, not in the code) = how many script steps thread `t` itself executed.
+
+`cloneAll = true` is the code as it is.  `false` is the variant in which only compiled
+functions get a clone and every other callable runs on the spawner's VM; it exists only so
+that the theorems can show that the clone is part of what the property depends on. -/
+
+inductive Callee where
+  | fn        -- a compiled function
+  | builtin   -- a builtin (`call`, `try`, `sorted`, a host builtin …)
+  | method    -- a bound method of a container (`items.map`, `items.each`, `items.filter`)
+  deriving Repr, DecidableEq
+
+structure VMs where
+  vmOf : List Nat := [0]       -- vmOf[t] = the VM thread t's script code runs on
+  ip : List Nat := [0]         -- ip[v] = register of VM v
+  pos : List Nat := [0]        -- pos[t] = script steps thread t has executed (history)
+  deriving Repr, DecidableEq
+
+inductive VOp where
+  | spawn (p : Nat) (k : Callee)   -- thread p starts a thread for a callable of kind k (any spawn form)
+  | exec (t : Nat)                 -- thread t executes one step of script code (own body / a callback of its builtin)
+  deriving Repr, DecidableEq
+
+def vstepWith (cloneAll : Bool) (s : VMs) : VOp → Option VMs
+  | .spawn p k =>
+    if p < s.vmOf.length then
+      if cloneAll || k == .fn then
+        some { vmOf := s.vmOf ++ [s.ip.length], ip := s.ip ++ [0], pos := s.pos ++ [0] }
+      else
+        some { vmOf := s.vmOf ++ [s.vmOf.getD p 0], ip := s.ip, pos := s.pos ++ [0] }
+    else none
+  | .exec t =>
+    if t < s.vmOf.length then
+      some { s with ip := s.ip.set (s.vmOf.getD t 0) (s.ip.getD (s.vmOf.getD t 0) 0 + 1),
+                    pos := s.pos.set t (s.pos.getD t 0 + 1) }
+    else none
+
+/-- **Impl**: every spawned callable gets a clone -/
+def vstep : VMs → VOp → Option VMs := vstepWith true
+
+def vrunWith (cloneAll : Bool) (s : VMs) : List VOp → Option VMs
+  | [] => some s
+  | o :: os =>
+    match vstepWith cloneAll s o with
+    | some s' => vrunWith cloneAll s' os
+    | none => none
+
+def vrun : VMs → List VOp → Option VMs := vrunWith true
+
+/-- run a schedule skipping the steps that are not enabled (for the oracle) -/
+def vtrace (cloneAll : Bool) (s : VMs) : List VOp → VMs
+  | [] => s
+  | o :: os =>
+    match vstepWith cloneAll s o with
+    | some s' => vtrace cloneAll s' os
+    | none => vtrace cloneAll s os
+
+/-- **Spec**: no two threads share a VM … -/
+def distinctVMs (s : VMs) : Bool := s.vmOf.Nodup
+
+/-- … and every thread's VM has executed exactly that thread's own steps (nobody else moved
+    its registers) -/
+def ownProgress (s : VMs) : Bool :=
+  (List.range s.vmOf.length).all fun t => s.ip.getD (s.vmOf.getD t 0) 0 == s.pos.getD t 0
+
 end Risor.C10
